@@ -15,8 +15,8 @@ Contents
                                                                       depends only on the free symbols
 * `eval_perm_and`, `eval_perm_or`                                  — AC canonicalisation used by the harness
 * `Term.inFrag`, `nodeFrag`, `eval_hasSort_partial`, `eval_bool_partial`
-                                                                   — sort preservation; left out: `arrayStore`,
-                                                                      `arrayValue`, `pow`, `algebraicConst`
+                                                                   — sort preservation; left out: `pow`,
+                                                                      `algebraicConst`
 * `typeOfNode_*`                                                   — closed forms / inversions of the type rules
 -/
 namespace PySMT
@@ -946,8 +946,8 @@ def Op.isBvBin : Op → Bool
 
 /-- Shape conditions on a node with `n` arguments: the arity and payload shape that the
 `FormulaManager` constructors guarantee (the type checker does not check them), for the operators
-covered by `eval_hasSort_partial`. Not covered (`false`): `arrayStore`, `arrayValue` (canonical array
-values), `pow`, `algebraicConst` (no semantics in `Core/Eval`). `bvExtract` needs `lo ≤ hi`: the type
+covered by `eval_hasSort_partial`. Not covered (`false`): `pow`, `algebraicConst` (no semantics in
+`Core/Eval`). `bvExtract` needs `lo ≤ hi`: the type
 rule accepts the zero-width extract `lo = hi + 1`, which `BVExtract` rejects. -/
 def nodeFrag (op : Op) (p : Payload) (n : Nat) : Bool :=
   match op with
@@ -967,7 +967,8 @@ def nodeFrag (op : Op) (p : Payload) (n : Nat) : Bool :=
   | .bvSdiv | .bvSrem | .bvAshr | .strCharAt => n == 2
   | .bvZext | .bvSext => n == 1 && (match p with | .ints [_, _] => true | _ => false)
   | .strReplace | .strIndexOf | .strSubstr => n == 3
-  | .arrayStore | .arrayValue | .pow | .algebraicConst => false
+  | .arrayStore | .arrayValue => true
+  | .pow | .algebraicConst => false
 
 /-- every node satisfies `nodeFrag` -/
 def Term.inFrag : Term → Bool
@@ -1023,6 +1024,143 @@ theorem sortedAll_3 {vs t u w} (h : SortedAll vs [t, u, w]) :
   obtain ⟨a, r, rfl, h1, h2⟩ := sortedAll_cons h
   obtain ⟨b, c, rfl, h3, h4⟩ := sortedAll_2 h2
   exact ⟨a, b, c, rfl, h1, h3, h4⟩
+
+/-! ### canonical array values -/
+
+theorem foldl_astore_hasSort (ix e : Ty) : ∀ (ents : List (Val × Val)) (a : Val),
+    a.hasSort (.array ix e) = true → (∀ kv ∈ ents, kv.1.hasSort ix = true ∧ kv.2.hasSort e = true) →
+    (ents.foldl (fun a kv => Val.astore a kv.1 kv.2) a).hasSort (.array ix e) = true
+  | [], a, ha, _ => ha
+  | kv :: ents, a, ha, h => by
+    simp only [List.foldl_cons]
+    apply foldl_astore_hasSort ix e ents
+    · simp only [Val.hasSort, ha, (h kv (by simp)).1, (h kv (by simp)).2, Bool.and_self]
+    · intro kv' hkv'; exact h kv' (by simp [hkv'])
+
+theorem mkArr_hasSort (ix e : Ty) (d : Val) (hd : d.hasSort e = true) (ents : List (Val × Val))
+    (h : ∀ kv ∈ ents, kv.1.hasSort ix = true ∧ kv.2.hasSort e = true) :
+    (Val.mkArr ix d ents).hasSort (.array ix e) = true := by
+  unfold Val.mkArr
+  apply foldl_astore_hasSort ix e ents _ _ h
+  simp [Val.hasSort, hd]
+
+theorem arr_parts (ix e : Ty) : ∀ (a : Val), a.hasSort (.array ix e) = true →
+    a.arrIdx = ix ∧ a.arrDefault.hasSort e = true ∧
+    ∀ kv ∈ a.arrEntries, kv.1.hasSort ix = true ∧ kv.2.hasSort e = true
+  | .astore a k v, h => by
+    simp only [Val.hasSort, Bool.and_eq_true] at h
+    obtain ⟨h1, h2, h3⟩ := arr_parts ix e a h.1.1
+    refine ⟨h1, h2, ?_⟩
+    intro kv hkv
+    simp only [Val.arrEntries, List.mem_append, List.mem_singleton] at hkv
+    rcases hkv with hkv | rfl
+    · exact h3 kv hkv
+    · exact ⟨h.1.2, h.2⟩
+  | .aconst ix' d, h => by
+    simp only [Val.hasSort, Bool.and_eq_true, beq_iff_eq] at h
+    exact ⟨h.1, h.2, by simp [Val.arrEntries]⟩
+  | .b _, h | .i _, h | .r _, h | .s _, h | .bv _ _, h | .u _ _, h => by simp [Val.hasSort] at h
+
+theorem lookupEnt_hasSort (e : Ty) (k d : Val) (hd : d.hasSort e = true) : ∀ (ents : List (Val × Val)),
+    (∀ kv ∈ ents, kv.2.hasSort e = true) → (Val.lookupEnt k d ents).hasSort e = true
+  | [], _ => hd
+  | (k', v') :: rest, h => by
+    simp only [Val.lookupEnt]
+    split
+    · exact h (k', v') (by simp)
+    · exact lookupEnt_hasSort e k d hd rest (fun kv hkv => h kv (by simp [hkv]))
+
+theorem smallDomain_hasSort (ix : Ty) (dom : List Val) (h : Val.smallDomain ix = some dom) :
+    ∀ k ∈ dom, k.hasSort ix = true := by
+  cases ix <;> simp [Val.smallDomain] at h
+  case bool => subst h; intro k hk; simp at hk; rcases hk with rfl | rfl <;> rfl
+  case bv w =>
+    obtain ⟨_, rfl⟩ := h
+    intro k hk
+    simp only [List.mem_map, List.mem_range] at hk
+    obtain ⟨n, hn, rfl⟩ := hk
+    simp [Val.hasSort, hn]
+
+theorem normArr_hasSort (ix e : Ty) (d : Val) (hd : d.hasSort e = true) (ents : List (Val × Val))
+    (h : ∀ kv ∈ ents, kv.1.hasSort ix = true ∧ kv.2.hasSort e = true) :
+    (Val.normArr ix d ents).hasSort (.array ix e) = true := by
+  unfold Val.normArr
+  split
+  · next dom hdom =>
+    split
+    · next m hm =>
+      simp only
+      split
+      · exact mkArr_hasSort ix e d hd ents h
+      · apply mkArr_hasSort ix e _ (lookupEnt_hasSort e m d hd ents (fun kv hkv => (h kv hkv).2))
+        intro kv hkv
+        simp only [List.mem_filter, List.mem_map] at hkv
+        obtain ⟨⟨k, hk, rfl⟩, _⟩ := hkv
+        exact ⟨smallDomain_hasSort ix dom hdom k (by rw [List.dropLast_eq_take] at hk; exact List.mem_of_mem_take hk),
+          lookupEnt_hasSort e k d hd ents (fun kv hkv => (h kv hkv).2)⟩
+    · exact mkArr_hasSort ix e d hd ents h
+  · exact mkArr_hasSort ix e d hd ents h
+
+theorem insertEnt_sorted (ix e : Ty) (k v : Val) (hk : k.hasSort ix = true) (hv : v.hasSort e = true) :
+    ∀ (ents : List (Val × Val)), (∀ kv ∈ ents, kv.1.hasSort ix = true ∧ kv.2.hasSort e = true) →
+    ∀ kv ∈ Val.insertEnt k v ents, kv.1.hasSort ix = true ∧ kv.2.hasSort e = true
+  | [], _, kv, hkv => by
+    simp only [Val.insertEnt, List.mem_singleton] at hkv; subst hkv; exact ⟨hk, hv⟩
+  | (k', v') :: rest, h, kv, hkv => by
+    simp only [Val.insertEnt] at hkv
+    split at hkv
+    · rcases List.mem_cons.mp hkv with rfl | hkv
+      · exact ⟨hk, hv⟩
+      · exact h kv (by simp [hkv])
+    · split at hkv
+      · rcases List.mem_cons.mp hkv with rfl | hkv
+        · exact ⟨hk, hv⟩
+        · exact h kv hkv
+      · rcases List.mem_cons.mp hkv with rfl | hkv
+        · exact h _ (by simp)
+        · exact insertEnt_sorted ix e k v hk hv rest (fun kv hkv => h kv (by simp [hkv])) kv hkv
+
+theorem store_hasSort (ix e : Ty) (a k v : Val) (ha : a.hasSort (.array ix e) = true)
+    (hk : k.hasSort ix = true) (hv : v.hasSort e = true) : (a.store k v).hasSort (.array ix e) = true := by
+  obtain ⟨h1, h2, h3⟩ := arr_parts ix e a ha
+  unfold Val.store
+  simp only [h1]
+  split
+  · exact normArr_hasSort ix e _ h2 _ (fun kv hkv => h3 kv (List.mem_filter.mp hkv).1)
+  · exact normArr_hasSort ix e _ h2 _ (insertEnt_sorted ix e k v hk hv _ h3)
+
+theorem typeOfNode_arrayStore' {p ts τ} (h : typeOfNode .arrayStore p ts = some τ) :
+    ∃ i e, ts = [some (.array i e), some i, some e] ∧ τ = .array i e := by
+  rcases ts with _ | ⟨_ | ⟨t1⟩, r1⟩ <;> (try (cases h; done))
+  cases t1 <;> (try (cases h; done))
+  rcases r1 with _ | ⟨_ | ⟨t2⟩, r2⟩ <;> (try (cases h; done))
+  rcases r2 with _ | ⟨_ | ⟨t3⟩, r3⟩ <;> (try (cases h; done))
+  rcases r3 with _ | ⟨t4, r4⟩ <;> (try (cases h; done))
+  obtain ⟨⟨rfl, rfl⟩, rfl⟩ := of_ite_some h
+  exact ⟨_, _, rfl, rfl⟩
+
+theorem typeOfNode_arrayValue' {p ts τ} (h : typeOfNode .arrayValue p ts = some τ) :
+    ∃ idx d rest, p = .ty idx ∧ ts = some d :: rest ∧ typeOfNode.chk idx d rest = true ∧ τ = .array idx d := by
+  cases p <;> (try (cases h; done))
+  rcases ts with _ | ⟨_ | ⟨t1⟩, r1⟩ <;> (try (cases h; done))
+  obtain ⟨hc, rfl⟩ := of_ite_some h
+  exact ⟨_, _, _, rfl, rfl, hc, rfl⟩
+
+theorem arrayValue_hasSort (idx d : Ty) (dv : Val) (hd : dv.hasSort d = true) :
+    ∀ (ts : List (Option Ty)) (vs : List Val), typeOfNode.chk idx d ts = true → SortedAll vs ts →
+    (Sem.arrayValue idx dv vs).hasSort (.array idx d) = true
+  | [], vs, _, hs => by
+    rw [sortedAll_nil hs]
+    simp [Sem.arrayValue, Val.hasSort, hd]
+  | [t], vs, hc, _ => by simp [typeOfNode.chk] at hc
+  | k :: v :: more, vs, hc, hs => by
+    obtain ⟨kv, r1, rfl, hk, hs1⟩ := sortedAll_cons hs
+    obtain ⟨vv, r2, rfl, hv, hs2⟩ := sortedAll_cons hs1
+    simp only [typeOfNode.chk, Bool.and_eq_true, beq_iff_eq] at hc
+    obtain ⟨⟨rfl, rfl⟩, hc'⟩ := hc
+    simp only [Sem.arrayValue]
+    exact store_hasSort idx d _ kv vv (arrayValue_hasSort idx d dv hd more r2 hc' hs2) (hk _ rfl) (hv _ rfl)
+
 
 theorem evalOp_hasSort (I : Interp) (op : Op) (p : Payload) (vs : List Val) (ts : List (Option Ty)) (τ : Ty)
     (hfrag : nodeFrag op p vs.length = true) (hs : SortedAll vs ts)
@@ -1194,9 +1332,17 @@ theorem evalOp_hasSort (I : Interp) (op : Op) (p : Payload) (vs : List Val) (ts 
     obtain ⟨i, rfl⟩ := typeOfNode_arraySelect ht
     obtain ⟨a, j, rfl, ha, _⟩ := sortedAll_2 hs
     exact select_hasSort i τ j a (ha _ rfl)
+  case arrayStore =>
+    obtain ⟨i, e, rfl, rfl⟩ := typeOfNode_arrayStore' ht
+    obtain ⟨a, k, v, rfl, ha, hk, hv⟩ := sortedAll_3 hs
+    exact store_hasSort i e a k v (ha _ rfl) (hk _ rfl) (hv _ rfl)
+  case arrayValue =>
+    obtain ⟨idx, d, rest, rfl, rfl, hc, rfl⟩ := typeOfNode_arrayValue' ht
+    obtain ⟨dv, r, rfl, hd, hs'⟩ := sortedAll_cons hs
+    exact arrayValue_hasSort idx d dv (hd _ rfl) rest r hc hs'
 
-/-- **Sort preservation** (`_partial`: every operator except `arrayStore`, `arrayValue` — canonical
-array values —, `pow` and `algebraicConst` — no semantics in `Core/Eval`; and assuming the arity /
+/-- **Sort preservation** (`_partial`: every operator except `pow` and `algebraicConst` — no
+semantics in `Core/Eval`; and assuming the arity /
 payload shapes of `Term.inFrag`, which the type checker does not enforce but every `FormulaManager`
 constructor does): under a well-formed interpretation a well-typed term of type `τ` evaluates to a
 value of sort `τ`. -/
